@@ -188,6 +188,8 @@ type Violation struct {
 	Msg     string       `json:"msg"`
 	Tape    []*TapeEntry `json:"tape"`
 	Known   string       `json:"known,omitempty"`
+	Sched   []string     `json:"sched,omitempty"`    // vSched tags in the order the counterexample schedule passed them
+	Switch  []string     `json:"switches,omitempty"` // goroutine switches of the counterexample schedule
 }
 
 type HarnessResult struct {
@@ -280,7 +282,8 @@ func (in *Interp) checkObligation(kind, label string, c *Term, msg string) {
 		h.mu.Unlock()
 		h.incomplete(fmt.Sprintf("solver answered unknown for obligation %q at %s", label, pos))
 	case Sat:
-		v := &Violation{Harness: h.Name, Kind: kind, Label: label, Pos: pos, Msg: msg, Tape: in.fillTape(vals)}
+		v := &Violation{Harness: h.Name, Kind: kind, Label: label, Pos: pos, Msg: msg, Tape: in.fillTape(vals),
+			Sched: append([]string(nil), in.sch.log...), Switch: append([]string(nil), in.sch.switches...)}
 		h.mu.Lock()
 		o.Violated++
 		if len(h.Violations) < 200 {
@@ -353,7 +356,8 @@ func (in *Interp) recordPanicViolation(gp goPanic) {
 	case Sat:
 		o.Violated++
 		if len(h.Violations) < 200 {
-			h.Violations = append(h.Violations, &Violation{Harness: h.Name, Kind: "panic", Label: label, Pos: pos, Msg: msg, Tape: in.fillTape(vals)})
+			h.Violations = append(h.Violations, &Violation{Harness: h.Name, Kind: "panic", Label: label, Pos: pos, Msg: msg, Tape: in.fillTape(vals),
+				Sched: append([]string(nil), in.sch.log...), Switch: append([]string(nil), in.sch.switches...)})
 		}
 	case Unsat:
 		// path was infeasible after all (possible after unknown branch answers)
@@ -399,6 +403,10 @@ type HarnessCfg struct {
 	Tier          string
 	Expect        map[string]string // known finding ids declared by the harness
 	MaxWall       time.Duration
+	Sched         bool
+	Race          bool
+	MaxPreempt    int
+	MaxGoroutines int
 }
 
 type Explorer struct {
@@ -546,8 +554,20 @@ func (ex *Explorer) runPath(ts *TermStore, ctx *Ctx, prefix []decision) (alts []
 		globals: map[*ssa.Global]*value{}, pkgInit: map[*ssa.Package]int{},
 		maxSteps: ex.cfg.MaxSteps, maxDepth: ex.cfg.MaxDepth, ghost: map[string]value{}, jsonToks: map[string]value{}, funcsSeen: map[*ssa.Function]bool{}}
 	end := "done"
+	if ex.cfg.Sched {
+		in.initSched()
+	}
 	defer func() {
-		if r := recover(); r != nil {
+		r := recover()
+		func() {
+			defer func() { recover() }()
+			in.killAll()
+		}()
+		if cp, ok := r.(childPanic); ok {
+			in.lastPanicPos = cp.pos
+			r = cp.gp
+		}
+		if r != nil {
 			switch r := r.(type) {
 			case pathEnd:
 				end = r.kind
